@@ -162,8 +162,13 @@ func analyzeEffects(fs *fileSet) (getterWrites []string, copyGetters map[string]
 					}
 				}
 			case *ast.RangeStmt:
-				// `for k, v := range s.m`: v is a copy of the element (value semantics) — pointer elements alias the root
-				_ = st
+				// `for k, v := range s.m`: v may be a reference (map, slice, pointer element) into what is ranged over:
+				// conservatively, it aliases the root of the ranged expression
+				if c := classify(fi, rootIdent(st.X)); c != "" && st.Tok == token.DEFINE {
+					if id, ok := st.Value.(*ast.Ident); ok && id.Name != "_" {
+						fi.alias[id.Name] = c
+					}
+				}
 			}
 			return true
 		})
